@@ -128,29 +128,88 @@ RATES = [(44100, 48000), (48000, 44100), (1, 2), (2, 1), (1, 4), (4, 1), (1, 3),
          (1, 3.14159), (3.14159, 1), (1, 1.41421356), (2.71828, 1), (5, 1), (1, 5), (7, 4), (1, 8), (16, 1), (44100, 44101), (10, 7), (1, 1)]
 
 
+def mk_job(rng, ir, orr, recipe, qflags=0, clip=False, cls="random", rtflags=0, nout=16000, prec=None):
+    job = {"ir": ir, "or": orr, "recipe": recipe, "qflags": qflags, "seed": 1 + rng.below(1 << 30)}
+    if prec is not None:
+        job["prec"] = prec
+    if rtflags:
+        job["rtflags"] = rtflags
+    up = orr / ir
+    job["N"] = int(min(400000, max(6000, nout / up)))
+    fmax = .5 * min(1.0, up) * .6
+    for i in range(1 + rng.below(3)):
+        job["f%d" % (i + 1)] = round(rng.uniform(.02, 1.0) * fmax, 6)
+    job["otype"] = rng.choice([2, 3, 3]) if clip else rng.choice([0, 1, 1])
+    job["amp"] = rng.choice([3.0, 4.0, 6.0]) if clip else rng.choice([.9, .5, .25])
+    # the variable of the job's precision class (recipes 5..8 are above 20 bits), sometimes the other one (no effect expected)
+    dbl = bool(qflags & 16) or (job.get("prec", 0) > 20) or ("prec" not in job and (recipe & 15) in (5, 6, 7, 8, 11, 12))
+    job["var"] = rng.choice(["SOXR_USE_SIMD", "SOXR_USE_SIMD64" if dbl else "SOXR_USE_SIMD32"]) if (cls != "random" or rng.chance(.93)) else rng.choice(["SOXR_USE_SIMD32", "SOXR_USE_SIMD64"])
+    job["clip"] = clip
+    job["cls"] = cls
+    return job
+
+
 def gen_job(rng, idx):
     ir, orr = rng.choice(RATES)
     recipe = rng.choice([0, 1, 1, 2, 2, 3, 4, 4, 5, 6, 6, 7, 8, 9, 10])
     if rng.chance(.15):
         recipe |= 0x40
     qflags = rng.choice([0, 0, 0, 1, 2, 8, 16, 16 | 8])
-    job = {"ir": ir, "or": orr, "recipe": recipe, "qflags": qflags, "seed": 1 + rng.below(1 << 30)}
-    if rng.chance(.15):
-        job["prec"] = rng.choice([15, 16, 18, 20, 21, 24, 28, 33])
-    up = orr / ir
-    job["N"] = int(min(120000, max(6000, 16000 / up)))
-    fmax = .5 * min(1.0, up) * .6
-    k = 1 + rng.below(3)
-    for i in range(k):
-        job["f%d" % (i + 1)] = round(rng.uniform(.02, 1.0) * fmax, 6)
-    clip = rng.chance(.25)
-    job["otype"] = rng.choice([2, 3, 3]) if clip else rng.choice([0, 1, 1])
-    job["amp"] = rng.choice([3.0, 4.0, 6.0]) if clip else rng.choice([.9, .5, .25])
-    # the variable of the job's precision class (recipes 5..7 and 8 are above 20 bits), sometimes the other one (no effect expected)
-    dbl = bool(qflags & 16) or (job.get("prec", 0) > 20) or ("prec" not in job and (recipe & 15) in (5, 6, 7, 8, 11, 12))
-    job["var"] = rng.choice(["SOXR_USE_SIMD", "SOXR_USE_SIMD64" if dbl else "SOXR_USE_SIMD32"]) if rng.chance(.93) else rng.choice(["SOXR_USE_SIMD32", "SOXR_USE_SIMD64"])
-    job["clip"] = clip
-    return job
+    prec = rng.choice([15, 16, 18, 20, 21, 24, 28, 33]) if rng.chance(.15) else None
+    return mk_job(rng, ir, orr, recipe, qflags, clip=rng.chance(.25), prec=prec, rtflags=rng.choice([0, 0, 0, 2, 3, 8]))
+
+
+def gcd(a, b):
+    while b:
+        a, b = b, a % b
+    return a
+
+
+def class_jobs(rng):
+    """One job (or more) for EVERY path of the stage planner, on every run; which recipe / precision class / flags a member gets
+    rotates with the seed.  Each runs long enough for the compared window to span many dft blocks."""
+    jobs = []
+    n = 60000
+    lo, hi = [1, 3, 4], [5, 6, 7]            # recipes of the single- and of the double-precision class
+
+    def q(i):                                # alternate precision classes along the list, shifted by the seed
+        return rng.choice(hi if (i + rot) & 1 else lo)
+    rot = rng.below(2)
+    i = 0
+    # every small-integer dft-only plan: io_ratio = M / L
+    for L in range(1, 6):
+        for M in range(1, 6):
+            if L != M and gcd(L, M) == 1:
+                jobs.append(mk_job(rng, M, L, q(i), cls="int-L%d-M%d" % (L, M), nout=n)); i += 1
+    # F-domain decimation by 2 and by 4 (with and without a factor-3 interpolation), each in three qualities
+    for M, L in ((2, 1), (2, 3), (4, 1), (4, 3)):
+        for r in (1, 4, 6):
+            jobs.append(mk_job(rng, M, L, r, qflags=rng.choice([0, 0, 16]), cls="fdomain-down-M%d-L%d" % (M, L), nout=n))
+    # power-of-two F-domain up-sampling
+    for k in (2, 4, 8, 16, 32):
+        jobs.append(mk_job(rng, 1, k, q(i), cls="fdomain-up-%d" % k, nout=n)); i += 1
+    # half-band chains (with and without a final dft / poly stage)
+    for k in (8, 16, 32, 64, 6, 12, 24, 10):
+        jobs.append(mk_job(rng, k, 1, q(i), cls="halfband-%d" % k, nout=20000)); i += 1
+    # 1.5 < io_ratio < 2: poly stage + post stage
+    for r in (1.7, 1.9, 1.5000001, 1.8375, 1.999):
+        jobs.append(mk_job(rng, r, 1, q(i), cls="pre-post-%g" % r, nout=n)); i += 1
+    # irrational ratios, each coefficient-interpolation order, each quality class
+    for ir, orr in ((1, 3.14159), (3.14159, 1), (1, 1.41421356), (2.71828, 1)):
+        for rtf in (0, 2, 3):
+            for r in (rng.choice([1, 2]), rng.choice([3, 4]), rng.choice(hi)):
+                jobs.append(mk_job(rng, ir, orr, r, cls="irrational-interp%d" % rtf, rtflags=rtf, nout=n))
+    # 'quick' cubic interpolation
+    for ir, orr in ((1, 3.14159), (3.14159, 1), (2, 1), (1, 2), (44100, 48000)):
+        jobs.append(mk_job(rng, ir, orr, 0, cls="cubic", nout=n))
+    # audio rates, libsamplerate presets, steep filters, roll-offs, hi-prec clock
+    for ir, orr in ((44100, 48000), (48000, 44100), (96000, 44100), (8000, 44100)):
+        jobs.append(mk_job(rng, ir, orr, rng.choice([8, 9, 10, 0x44, 0x46]), qflags=rng.choice([0, 1, 2, 8]), cls="audio", nout=n))
+    # clipping jobs on integer outputs, both precision classes
+    for r in (rng.choice(lo), rng.choice(hi)):
+        jobs.append(mk_job(rng, 44100, 48000, r, clip=True, cls="clip", nout=n))
+        jobs.append(mk_job(rng, 3, 2, r, clip=True, cls="clip", nout=n))
+    return jobs
 
 
 def job_bits(job, qtable):
@@ -202,10 +261,10 @@ def stage_falsifier(ctx, n):
     exe = common.build_harness("config_engines", ["config/engines.c"], "rel")
     probe = common.build_harness("config_probe", ["config/probe.c"], "dbg")
     rng = ctx.rng
-    jobs = [gen_job(rng, i) for i in range(n)]
+    jobs = class_jobs(rng) + [gen_job(rng, i) for i in range(n)]
     # pinned: the case DESIGN section 5 discusses (LQ 1 -> 3.14159: u100 vs designed 10-tap filter; inside the roll-off class)
     jobs.append({"ir": 1, "or": 3.14159, "recipe": 1, "qflags": 0, "seed": 3, "N": 8000, "f1": .01, "f2": .13, "f3": .3, "otype": 1, "amp": .9,
-                 "var": "SOXR_USE_SIMD", "clip": False})
+                 "var": "SOXR_USE_SIMD", "clip": False, "cls": "pinned-u100"})
     reqs = sorted(set("qspec %d %d" % (j["recipe"], j["qflags"]) for j in jobs))
     rc, out, err = cl._run_proc(probe, reqs, 60)
     qtable = {}
@@ -214,7 +273,7 @@ def stage_falsifier(ctx, n):
         qtable[req] = {"prec": cl.b2d(k["prec"]), "flags": int(k["flags"])}
 
     def work(job):
-        line = " ".join("%s=%s" % (k, v) for k, v in job.items() if k != "clip")
+        line = " ".join("%s=%s" % (k, v) for k, v in job.items() if k not in ("clip", "cls"))
         rc, out, err = cl._run_proc(exe, [line], 600)
         return job, rc, out.strip(), err
 
@@ -232,8 +291,9 @@ def stage_falsifier(ctx, n):
         bad, how = judge(job, out, bits, rolloff)
         ctx.hist("falsifier_jobs", how)
         k = cl.kv(out)
+        ctx.hist("planner_path_classes", job.get("cls", "random").split("-")[0] + ":" + how)
         if how == "compared":
-            shapes.add((k["engA"], job["recipe"] & 15, job["clip"], job["ir"] > job["or"]))
+            shapes.add((k["engA"], job["recipe"] & 15, job["clip"], job["ir"] > job["or"], job.get("cls", "random")))
             ctx.count("engine_pairs_compared")
             ctx.hist("dist_pair", k["engA"] + "/" + k["engB"])
             ctx.hist("dist_recipe", job["recipe"] & 15)
@@ -262,7 +322,7 @@ def replay_only(ctx, exe):
     if rep.get("job"):
         job = rep["job"]
         eng = common.build_harness("config_engines", ["config/engines.c"], "rel")
-        rc, out, err = cl._run_proc(eng, [" ".join("%s=%s" % (k, v) for k, v in job.items() if k != "clip")], 600)
+        rc, out, err = cl._run_proc(eng, [" ".join("%s=%s" % (k, v) for k, v in job.items() if k not in ("clip", "cls"))], 600)
         rc2, out2, _ = cl._run_proc(exe, ["qspec %d %d" % (job["recipe"], job["qflags"])], 60)
         k = cl.kv([l for l in out2.splitlines() if l.startswith("< Q")][0])
         p = float(job["prec"]) if "prec" in job else cl.b2d(k["prec"])
@@ -303,7 +363,11 @@ def run(ctx):
                        "overrides around 20 (incl. the neighbours of 20.0 and NaN) x NULL quality spec x SOXR_USE_SIMD / SIMD32 / SIMD64 unset, 0, 1 and garbage "
                        "strings, followed by soxr_engine() after clear / process / set_num_channels: real answers vs the Lean model `selectEngine` / `step` "
                        "(engine name, conversion kernels installed, CPU detection as observed) and vs the property's own decision table evaluated in the check; "
-                       "falsifier: the same job (24 rate pairs, all recipes, flags, precisions 15..33, float and integer outputs, random call schedules) run in "
+                       "falsifier: on every run one job or more for EVERY path of the stage planner (every small-integer dft plan L,M in 1..5; F-domain decimation by 2 and 4 "
+                       "with L in {1,3} in three qualities; power-of-two F-domain up-sampling; half-band chains; 1.5 < ratio < 2 pre/post plans; irrational ratios x each "
+                       "coefficient-interpolation order x quality class; cubic; audio rates with libsamplerate presets / steep filters; clipping integer outputs), "
+                       "members rotated by the seed, each long enough for the compared window (all but the first and last eighth) to span many dft blocks, plus "
+                       "random jobs (24 rate pairs, all recipes, flags, precisions 15..33, float and integer outputs, random call schedules), each run in "
                        "one process on the portable and the SIMD engine of its class: total length, delay + frames delivered at every call, final delay, clip "
                        "counters (integer outputs, signal 3-6 x full scale), sample difference over the steady-state half of the output: residual after a "
                        "least-squares per-tone gain <= 2^(1-bits) + format resolution, per-tone gain difference inside the roll-off class; "
